@@ -286,6 +286,9 @@ def writer_count_ok(ex, node, st):
                     lhs = W.lin_norm(c)
                     rhs = W.lin_norm(W.lin_add(trip, {1: units}))
                     if lhs == rhs:
+                        if () in body_syms:
+                            return False, ("count %s == trip %s, but an iteration can emit nothing (a `continue` / empty arm before the "
+                                           "first write): fewer units than announced are written" % (W.lin_show(c), W.lin_show(trip)))
                         return True, "count %s == trip %s + %d unit(s) outside the loop" % (W.lin_show(c), W.lin_show(trip), units)
                     cnt = (c, units)
             j -= 1
